@@ -40,4 +40,16 @@ func (ra *RequestAdaptor) processDecompress(req *httpprot.Request) (res string)
   ensures only-gzip-labelled-bodies-are-decoded: (ra.spec.Decompress != "gzip" || old(reqLabel(req)) != "gzip") ==> res == "" && req.stream == old(req.stream) && req.payload == old(req.payload) && (forall k string :: ((k in req.Request.Header) <==> old(k in req.Request.Header)) && req.Request.Header[k] == old(req.Request.Header[k]))
   ensures a-decoded-body-loses-the-label: ra.spec.Decompress == "gzip" && old(reqLabel(req)) == "gzip" && res == "" ==> !(canon("Content-Encoding") in req.Request.Header) && ((req.stream != nil) <==> old(req.stream != nil))
   ensures res == "" || res == resultDecompressFailed
+
+// ---- C13 / C11: the kind's constructors (function literals of the package-level kind variable) ----
+// filters.NewSpec unmarshals the user's YAML into what DefaultSpec returns, and every generation of a pipeline
+// gets its filter from CreateInstance: both must hand out an object of their own on every call, and the
+// instance must be bound to exactly the spec it was created for
+func kind.DefaultSpec() (s filters.Spec)
+  flag allocates
+  ensures a-fresh-spec-of-this-kind: typeIs(s, "*Spec") && ifaceVal(s) != 0 && fresh(ptr(ifaceVal(s), "*Spec"))
+func kind.CreateInstance(spec filters.Spec) (f filters.Filter)
+  flag allocates
+  requires typeIs(spec, "*Spec")
+  ensures a-fresh-instance-bound-to-its-spec: typeIs(f, "*RequestAdaptor") && ifaceVal(f) != 0 && fresh(ptr(ifaceVal(f), "*RequestAdaptor")) && ref(ptr(ifaceVal(f), "*RequestAdaptor").spec) == ifaceVal(spec)
 @*/
